@@ -50,6 +50,17 @@ def declared_names(F):
     return names
 
 
+def _decls(F):
+    out = []
+
+    def fs(s):
+        if s["k"] == "decl":
+            out.append(s)
+
+    genprog.walk_stmts(F["body"], fs, lambda e: None)
+    return out
+
+
 def hierarchy_names(p, cls):
     if cls is None:
         return set()
@@ -124,6 +135,23 @@ def rename_case(draw, profile):
         F = draw(st.sampled_from(Fs))
         mine = declared_names(F)
         v = draw(st.sampled_from(sorted(set(mine))))
+    # fields that some method UPDATES through their bare name (x++, x = e): the names a caller's local is most interesting to
+    # collide with, because an update that leaks out of the callee's frame lands in that local
+    written = set()
+    for c in p.get("classes", []):
+        fnames = {f["name"] for f in c["fields"]}
+        for m in c.get("methods", []):
+            def fs(s_, fnames=fnames):
+                if s_["k"] in ("assign", "post") and s_.get("name") in fnames:
+                    written.add(s_["name"])
+                if s_["k"] == "expr" and isinstance(s_.get("e"), dict) and s_["e"].get("k") == "post" and s_["e"].get("name") in fnames:
+                    written.add(s_["e"]["name"])
+            genprog.walk_stmts(m["body"], fs, lambda e: None)
+    if written and not F["cls"] and draw(st.booleans()):
+        # rename a plain function's (typically main's) int local, preferably
+        ints = sorted({s_["name"] for s_ in _decls(F) if s_["t"] == "int"})
+        if ints:
+            v = draw(st.sampled_from(ints))
     # candidate new names: locals/params of OTHER bodies, fields of classes, and a fresh one
     others = set()
     for G in bodies(p):
@@ -134,6 +162,9 @@ def rename_case(draw, profile):
     cands = sorted((others | fields) - forbidden)
     fresh = "zq7"
     w = draw(st.sampled_from(cands + cands + [fresh])) if cands else fresh
+    hotw = sorted(written - forbidden)
+    if hotw and draw(st.booleans()):
+        w = draw(st.sampled_from(hotw))
     return {"prog": p, "where": F["where"], "v": v, "w": w, "collides": w != fresh, "profile": profile,
             "field_collision": w in fields, "from_shadowing": bool(F["cls"]) and v in hierarchy_names(p, F["cls"])}
 
